@@ -318,9 +318,10 @@ func (r *recorder) recordIncomingRTCP(latestStats internalStats, incoming *incom
 				latestStats.OutboundRTPStreamStats.NACKCount++
 			}
 		case *rtcp.FullIntraRequest:
-			if pkt.MediaSSRC == r.ssrc {
-				latestStats.OutboundRTPStreamStats.FIRCount++
-			}
+			// The targets of a FIR are its FCI entries (RFC 5104 4.3.1), which
+			// DestinationSSRC() above already matched; the media SSRC field is
+			// unused and zero on the wire.
+			latestStats.OutboundRTPStreamStats.FIRCount++
 		case *rtcp.PictureLossIndication:
 			if pkt.MediaSSRC == r.ssrc {
 				latestStats.OutboundRTPStreamStats.PLICount++
